@@ -473,3 +473,20 @@ Definition ex_h2 : list rop :=
 Definition ex_h3 : list rop :=
   [RGetItem (KName 0); RGetItem (KName 2); RSetItem (KName 1) (PInt 5); RGetItem (KPos (-2)); RGetPos 2 false;
    RLen; RSetPos 2 (Some (PAsn 6)); RClone true; REncode].
+
+(* ------------------------------------------------------------------------------------------ *)
+(* C12: k independent step machines stepped in an arbitrary interleaving                       *)
+
+Section Interleaving.
+  Context {St Ev: Type} (step: St -> Ev -> St).
+  (* one move of the product machine: machine i takes event e, all others stay as they are *)
+  Definition pstep (ss: list St) (ie: nat * Ev) : list St :=
+    match nth_error ss (fst ie) with
+    | Some s => set_nth (fst ie) (step s (snd ie)) ss
+    | None => ss
+    end.
+  Definition prun (ss: list St) (w: list (nat * Ev)) : list St := fold_left pstep w ss.
+  (* the events machine i receives, in order *)
+  Definition proj (i: nat) (w: list (nat * Ev)) : list Ev :=
+    map snd (filter (fun ie => Nat.eqb (fst ie) i) w).
+End Interleaving.
